@@ -23,13 +23,21 @@ var (
 
 func stubNewWatcher() (*fsnotify.Watcher, error) {
 	watchCh = make(chan fsnotify.Event, 8)
-	return &fsnotify.Watcher{Events: watchCh}, nil
+	w := &fsnotify.Watcher{Events: watchCh}
+	watchers = append(watchers, w)
+	return w, nil
 }
 
 func stubWatcherAdd(w *fsnotify.Watcher, name string) error {
 	watched = append(watched, name)
+	watcherOf[name] = w
 	return nil
 }
+
+var (
+	watchers  []*fsnotify.Watcher
+	watcherOf = map[string]*fsnotify.Watcher{} // file name -> the watcher it was added to
+)
 
 // stubReadSeq: the lease file as it is when the refresher gets to read it: the
 // generation written before the last event the refresher has taken from the
@@ -77,6 +85,7 @@ func VerifH_file_watch() {
 	v6 := vnd.Pick("proto", 0, 1) == 1
 	g := gens(v6)
 	watched, readN, watchCh, nEvents = nil, 0, nil, 0
+	watchers, watcherOf = nil, map[string]*fsnotify.Watcher{}
 	k := vnd.Pick("rewrites", 1, 3)
 	cur := g[0]
 	readSeq = [][]byte{[]byte(g[0].text)} // read by setup
@@ -139,4 +148,56 @@ func VerifH_file_watch() {
 	}
 	_ = cur
 	vnd.Assert(len(currentTable(!v6)) == 0, "C10 an instance's refresher touches only its own protocol's table")
+}
+
+// VerifH_file_watch2: both protocols configured with autorefresh, each on its
+// own file; each file is rewritten once (an event carrying the Write flag on the
+// watcher the file was added to). Afterwards each protocol serves its own new
+// file - whichever refresher ran first, and however the instances share or do
+// not share a watcher.
+func VerifH_file_watch2() {
+	watched, readN, watchCh, nEvents, readSeq = nil, 0, nil, 0, nil
+	watchers, watcherOf = nil, map[string]*fsnotify.Watcher{}
+	files = map[string][]byte{
+		"v4.txt": []byte("00:00:00:00:00:01 192.0.2.1\n"),
+		"v6.txt": []byte("00:00:00:00:00:01 2001:db8::1\n"),
+	}
+	installTable(false, nil)
+	installTable(true, nil)
+	var err4, err6 error
+	if vnd.Pick("order", 0, 1) == 0 {
+		_, err4 = setup4("v4.txt", "autorefresh")
+		_, err6 = setup6("v6.txt", "autorefresh")
+	} else {
+		_, err6 = setup6("v6.txt", "autorefresh")
+		_, err4 = setup4("v4.txt", "autorefresh")
+	}
+	vnd.Assert(err4 == nil && err6 == nil, "C10 both instances load their file")
+	if err4 != nil || err6 != nil {
+		return
+	}
+	w4, w6 := watcherOf["v4.txt"], watcherOf["v6.txt"]
+	vnd.Assert(w4 != nil && w6 != nil, "C10 autorefresh watches the lease file")
+	if w4 == nil || w6 == nil {
+		return
+	}
+	// rewrite one or both files, then deliver the events
+	which := vnd.Pick("rewritten", 1, 3) // 1: v4 only, 2: v6 only, 3: both
+	if which&1 != 0 {
+		files["v4.txt"] = []byte("00:00:00:00:00:02 192.0.2.2\n00:00:00:00:00:03 192.0.2.3\n")
+		w4.Events <- fsnotify.Event{Name: "v4.txt", Op: fsnotify.Write}
+	}
+	if which&2 != 0 {
+		files["v6.txt"] = []byte("00:00:00:00:00:04 2001:db8::4\n")
+		w6.Events <- fsnotify.Event{Name: "v6.txt", Op: fsnotify.Write}
+	}
+	vnd.RunGoroutines()
+	vnd.Cover("dual-refresh")
+	t4, t6 := currentTable(false), currentTable(true)
+	want4 := (which&1 != 0 && len(t4) == 2 && t4["00:00:00:00:00:02"] != nil && t4["00:00:00:00:00:03"] != nil) ||
+		(which&1 == 0 && len(t4) == 1 && t4["00:00:00:00:00:01"] != nil)
+	want6 := (which&2 != 0 && len(t6) == 1 && t6["00:00:00:00:00:04"] != nil) ||
+		(which&2 == 0 && len(t6) == 1 && t6["00:00:00:00:00:01"] != nil)
+	vnd.Assert(want4, "C10 a well-formed update of the DHCPv4 file replaces the DHCPv4 mapping (dual-stack with autorefresh)")
+	vnd.Assert(want6, "C10 a well-formed update of the DHCPv6 file replaces the DHCPv6 mapping (dual-stack with autorefresh)")
 }
